@@ -482,6 +482,8 @@ def inline_helpers(tree: ast.AST, defs: dict, select: typing.Callable[[str, ast.
             return isinstance(f, ast.Name) and f.id == name
 
         inside = {id(x) for x in ast.walk(node)}
+        if any((isinstance(x, ast.Attribute) and x.attr == name) or (isinstance(x, ast.Name) and x.id == name) for st in node.body for x in ast.walk(st)):
+            continue  # recursive (or self-referencing): stays a function
         sites = [c for c in ast.walk(scope) if is_call(c) and id(c) not in inside]
         if not sites:
             continue
@@ -721,6 +723,7 @@ class Module:
         self.defs: dict[str, ast.AST] = {}  # qualname -> ClassDef/FunctionDef (nested included)
         self.assigns: dict[str, ast.AST] = {}  # top-level NAME = value
         self.equivalent: list = []  # functions replaced by their reference spelling (proved equivalent, fv/equiv.py)
+        self.renamed: list = []  # (new name, reference qualname) of functions that were merely renamed
         self._index()
         if not os.environ.get('FV_NO_NORMALISE'):
             self._normalise()
@@ -1097,6 +1100,11 @@ class Program:
             sigs = equiv.SignatureIndex(self.modules.values()) if changed_mods else None
             equiv._ACTIVE_SIGS = sigs  # pylint: disable=protected-access
             for mod in changed_mods:
+                mod.renamed = equiv.undo_renames(mod, sigs)
+                if mod.renamed:
+                    mod.defs.clear()
+                    mod.assigns.clear()
+                    mod._index()  # pylint: disable=protected-access
                 mod._undo_extractions()  # pylint: disable=protected-access
                 mod.equivalent = equiv.substitute_equivalent(mod, sigs)
                 if mod.equivalent:
